@@ -229,14 +229,14 @@ def cfg_json(cfg):
 
 
 def tlc_generate(d, name, base, consts, cfgbody, out_path, defaults=None, timeout=600, simulate=None,
-                 seed=0, append=False, workers=None):
+                 seed=0, append=False, workers=None, heap="4g"):
     """Run a generator spec and collect the printed behaviours into out_path (ndjson).
     defaults: keys added to every behaviour that lacks them (cfg, ops, gen). Returns (count, states, secs)."""
     cfgtext = cfgbody + gen_module(d, name, base, consts)
     extra = []
     if simulate:
         extra = ["-simulate", "num=%d" % simulate[0], "-depth", str(simulate[1]), "-seed", str(seed)]
-    rc, outp, secs = run_tlc(d, name, cfgtext, timeout=timeout, extra=extra, workers=workers)
+    rc, outp, secs = run_tlc(d, name, cfgtext, timeout=timeout, extra=extra, workers=workers, heap=heap)
     n = 0
     seen_err = None
     with open(outp, errors="replace") as f, open(out_path, "a" if append else "w") as fo:
